@@ -307,3 +307,87 @@ prime_room_harness!(kd10_prime_room3, 3);
 prime_room_harness!(kd10_prime_room7, 7);
 prime_room_harness!(kd10_prime_room8, 8);
 prime_room_harness!(kd10_prime_room16, 16);
+
+// ---------------------------------------------------------------------------------------------------------------
+// KD3 — compress_block: the symbol buffer filled by the match finders is written out symbol by symbol and closed with the
+// end-of-block code.  A literal and a match in either order (symbolic byte, length, distance), through the static-tree
+// loop and through the general loop (given the fixed code as its trees): the bits are the RFC fixed codes of exactly these
+// symbols in this order, then 256.  (Which symbols the match finders tally is outside this harness.)
+// ---------------------------------------------------------------------------------------------------------------
+fn compress_block_two_symbols<const GENERAL: bool>() {
+    let mut w = [0u8; 2 << 4];
+    let mut p = [0u16; 1 << 4];
+    let mut h = [0u16; HASH_SIZE];
+    let mut pe = [MaybeUninit::new(0u8); 4 * 16];
+    let mut sy = [0u8; 3 * 16];
+    let mut state = typed_state(&mut w, &mut p, &mut h, &mut pe, &mut sy, 4, 16, 6, 0, Strategy::Default);
+    let mut model = BitModel::new();
+    let bv0: u8 = kani::any();
+    kani::assume(bv0 <= 7);
+    let bb0: u64 = kani::any();
+    kani::assume(bb0 >> bv0 == 0);
+    state.bit_writer.bit_buffer = bb0;
+    state.bit_writer.bits_valid = bv0;
+    model.push(bb0, bv0 as u32);
+    let c: u8 = kani::any();
+    let len: u16 = kani::any();
+    kani::assume(len >= 3 && len <= 258);
+    let dist: u16 = kani::any();
+    kani::assume(dist >= 1 && dist <= 32768);
+    let lit_first: bool = kani::any();
+    if lit_first {
+        state.sym_buf.push_lit(c);
+        state.sym_buf.push_dist(dist, (len - 3) as u8);
+    } else {
+        state.sym_buf.push_dist(dist, (len - 3) as u8);
+        state.sym_buf.push_lit(c);
+    }
+    if GENERAL {
+        let mut tmp = unsafe { SymBuf::from_raw_parts(core::ptr::NonNull::<u8>::dangling().as_ptr(), 0) };
+        core::mem::swap(&mut tmp, &mut state.sym_buf);
+        state.bit_writer.compress_block_help(&tmp, &self::trees_tbl::STATIC_LTREE, &self::trees_tbl::STATIC_DTREE);
+        core::mem::forget(tmp);
+    } else {
+        state.compress_block_static_trees();
+    }
+    let (lcode, lclen) = rfc_fixed_lit_code(c as u16);
+    let (sym, ex, exv) = rfc_len(len);
+    let (mcode, mclen) = rfc_fixed_lit_code(sym);
+    let (dsym, dex, dexv) = rfc_dist(dist);
+    if lit_first {
+        model.push(rev16(lcode, lclen) as u64, lclen as u32);
+    }
+    model.push(rev16(mcode, mclen) as u64, mclen as u32);
+    model.push(exv as u64, ex as u32);
+    model.push(rev16(dsym, 5) as u64, 5);
+    model.push(dexv as u64, dex as u32);
+    if !lit_first {
+        model.push(rev16(lcode, lclen) as u64, lclen as u32);
+    }
+    model.push(0, 7); // end of block
+    check_tail(&mut state.bit_writer, &model);
+    kani::cover!(lit_first && len == 258 && dist == 32768);
+    kani::cover!(!lit_first && len == 3 && dist == 1);
+    core::mem::forget(state);
+}
+
+#[kani::proof]
+#[kani::unwind(34)]
+#[kani::stub(core::fmt::write, stub_fmt_write)]
+#[kani::stub(core::panicking::panic_nounwind, stub_pn)]
+#[kani::stub(core::panicking::panic_nounwind_fmt, stub_pnf)]
+fn kd3_compress_block_static_two_symbols() {
+    compress_block_two_symbols::<false>();
+}
+
+#[kani::proof]
+#[kani::unwind(34)]
+#[kani::stub(core::fmt::write, stub_fmt_write)]
+#[kani::stub(core::panicking::panic_nounwind, stub_pn)]
+#[kani::stub(core::panicking::panic_nounwind_fmt, stub_pnf)]
+fn kd3_compress_block_general_two_symbols() {
+    compress_block_two_symbols::<true>();
+}
+
+// (A harness for tally_dist/tally_lit — exactly the RFC symbols of this length and distance are counted — ran out of
+// memory at 20 GB: the counters are updated at symbolic indices of the 573- and 61-entry tree arrays.  Not kept.)
